@@ -40,6 +40,7 @@ def run(ctx):
     rng = ctx.rng
     nd = statistics.NormalDist()
     exprs, metas = [], []
+    n_done = 0
     for i in range(ctx.n(200, 2000)):
         kind = rng.choice(['Uniform', 'LogUniform', 'LogUniform_lin', 'Gaussian', 'LogGaussian', 'LogGaussian_lin'])
         mag = rng.choice([1e-12, 1e-6, 1e-3, 1, 1e3, 1e12])
@@ -121,6 +122,32 @@ def run(ctx):
             got = p.prior(v)
             if math.isfinite(want) and not math.isclose(got, want, rel_tol=1e-12):
                 ctx.violation('to-model:' + kind, 'prior(%r) = %r, expected %r' % (v, got, want), replay=rp)
+        # ---- the bounds of a uniform prior redefined on the live object (public set_bounds): it is then the prior of
+        #      the NEW bounds -- support, boundaries() and every quantile
+        if not gauss and (n_done < 6 or rng.random() < 0.4):
+            a2 = rng.uniform(-5, 5) * 10 ** rng.uniform(-2, 2)
+            b2 = a2 + rng.choice([-1, 1]) * 10 ** rng.uniform(-3, 2)
+            try:
+                import copy
+                p2 = copy.deepcopy(p)          # (a copy: the model comparison below is about p as built)
+                p2.set_bounds([a2, b2])
+                lo2, hi2 = min(a2, b2), max(a2, b2)
+                s2 = [float(p2.sample(u)) for u in us]
+                bl2, bh2 = p2.boundaries()
+                bad = None
+                if not (math.isclose(bl2, lo2, rel_tol=1e-12, abs_tol=1e-300) and math.isclose(bh2, hi2, rel_tol=1e-12, abs_tol=1e-300)):
+                    bad = 'boundaries() = %r' % ((bl2, bh2),)
+                for u, x in zip(us, s2):
+                    if 0 <= u <= 1 and not math.isclose(x, lo2 + u * (hi2 - lo2), rel_tol=1e-9, abs_tol=1e-12 * max(abs(lo2), abs(hi2))):
+                        bad = 'sample(%r) = %r, the quantile of the new bounds is %r' % (u, x, lo2 + u * (hi2 - lo2))
+                        break
+                ctx.count('set_bounds on a live prior')
+                if bad:
+                    ctx.violation('set-bounds:' + kind, '%s after set_bounds([%r, %r]) (built with %r, %r): %s'
+                                  % (kind, a2, b2, a, b, bad), replay=dict(rp, set_bounds=[a2, b2]))
+            except Exception as e:
+                ctx.violation('set-bounds-raises:' + kind, 'set_bounds([%r, %r]) raised %r' % (a2, b2, e), replay=rp)
+        n_done += 1
         # ---- model
         if via_text:
             direct = {'Uniform': lambda: Uniform(bounds=[a, b]), 'LogUniform': lambda: LogUniform(bounds=[a, b]),
